@@ -323,6 +323,39 @@ def chk_subpyramid_toast_userfilter_wide(an: int, ax: int, ay: int, depth: int, 
     return _sub_toast(Pos(an, ax, ay), depth, _user_mask(um))
 
 
+def _user_mask12(um1, um2):
+    def user(t):
+        q = t.pos
+        if q.n == 1:
+            return ((um1 >> (q.x + 2 * q.y)) & 1) == 1
+        if q.n == 2:
+            return ((um2 >> ((q.x % 2) + 2 * (q.y % 2))) & 1) == 1
+        return True
+    return user
+
+
+def chk_subpyramid_toast_userfilter_ancestors(ax: int, ay: int, depth: int, um1: int) -> bool:
+    """
+    The user filter may reject tiles ABOVE the apex (symbolic mask over the four level-1 tiles): what the full pyramid
+    prunes there is not in the full result, so it is not in the sub-pyramid's either.
+
+    pre: depth == 2
+    pre: 0 <= ax < 4 and 0 <= ay < 4
+    pre: 0 <= um1 < 16
+    post: _
+    """
+    return _sub_toast(Pos(2, ax, ay), depth, _user_mask12(um1, 15))
+
+
+def chk_subpyramid_toast_userfilter_ancestors_wide(ax: int, ay: int, um1: int, um2: int) -> bool:
+    """
+    pre: 0 <= ax < 4 and 0 <= ay < 4
+    pre: 0 <= um1 < 16 and 0 <= um2 < 16
+    post: _
+    """
+    return _sub_toast(Pos(2, ax, ay), 3, _user_mask12(um1, um2))
+
+
 # ------------------------------------------------------------------ 4. reducer step invariant
 
 class _FakePyr:
